@@ -14,6 +14,7 @@ BoolOp, UnaryOp, BinOp, IfExp, Call, Subscript, List/Tuple/Dict/Set, JoinedStr, 
 Anything else raises Undecidable (→ ANALYSIS-ERROR, exit 2): "I cannot decide this any more".
 """
 import ast
+import os
 import operator
 
 from .index import AnalysisError, unparse, dotted
@@ -159,6 +160,8 @@ class Interp:
         self.ignore = tuple(ignore)
         self.unknown_calls = unknown_calls
         self.max_paths = max_paths
+        self.max_steps = int(os.environ.get("VERIF_MAX_STEPS", "1000000"))
+        self.steps = 0
         self.max_loop = max_loop
         self.isinstance_oracle = isinstance_oracle
         self.functions_seen = set()
@@ -314,6 +317,9 @@ class Interp:
             self.exec(st, frame)
 
     def exec(self, st, frame):
+        self.steps += 1
+        if self.steps > self.max_steps:
+            raise Undecidable(f"analysis budget exhausted: more than {self.max_steps} statements interpreted by one table (path explosion on a condition the model does not decide)")
         if isinstance(st, ast.Expr):
             if isinstance(st.value, ast.Constant):
                 return
@@ -583,7 +589,13 @@ class Interp:
                         try:
                             v = ast.literal_eval(c.class_assigns[attr])
                         except (ValueError, SyntaxError):
-                            break
+                            # a constant expression over literals and stdlib string constants (e.g. string.digits + "-_")
+                            try:
+                                v = self.eval(c.class_assigns[attr], {})
+                            except (Undecidable, Raised):
+                                break
+                            if isinstance(v, (Residual, Obj)) or not isinstance(v, (str, int, float, tuple)):
+                                break
                         if isinstance(v, (list, dict, set)):
                             # a class-level container is one shared object: later reads and mutations see the same one
                             self.store[key] = v
@@ -623,6 +635,9 @@ class Interp:
             ok, v = self.lookup(k)
             if ok:
                 return v
+            if base.text == "string" and e.attr in ("ascii_letters", "ascii_lowercase", "ascii_uppercase", "digits", "hexdigits", "octdigits", "punctuation", "whitespace", "printable"):
+                import string as _string
+                return getattr(_string, e.attr)  # constants of the stdlib `string` module
             # property getters of inlinable classes
             cls = self.types.get(base.text)
             if cls and f"{cls}.{e.attr}" in self.inline:
@@ -788,6 +803,9 @@ class Interp:
                 return True
             if isinstance(a, (Residual, Obj)) and isinstance(b, (Residual, Obj)) and a == b and op in (ast.IsNot, ast.NotEq):
                 return False
+            if isinstance(a, Obj) and isinstance(b, Obj) and op in (ast.Eq, ast.NotEq):
+                # two definite abstract objects of the model: equal iff the same object (the a == b case is decided above)
+                return op is ast.NotEq
             if op in (ast.Is, ast.IsNot) and (isinstance(a, Obj) or isinstance(b, Obj)):
                 # an Obj is a definite object: never None/True/False
                 return op is ast.IsNot
